@@ -634,14 +634,28 @@ def header_data_agreement(ctx, rule_id):
             return lists_in(t[2]) + lists_in(t[3])
         if t[0] == "list":
             return [t]
-        if t[0] == "bin" and t[1] == "+":
-            # ["a", "b"] + extra + ["c"]: the same sequence as a display
-            # with the middle spliced in
-            ps = concat_parts(t)
-            if any(k == "item" for k, _x in ps):
-                return [("list", tuple(x if k == "item" else ("star", x)
-                                       for k, x in ps))]
+        d = as_display(t)
+        if d is not None and any(x[0] != "star" for x in d):
+            return [("list", tuple(d))]
         return []
+
+    def as_display(t):
+        """elements of a list built with +, append and extend, in order
+        (a part that is not a display is a spliced ('star', part))"""
+        if t[0] == "list":
+            return list(t[1])
+        if t[0] == "bin" and t[1] == "+":
+            a, b = as_display(t[2]), as_display(t[3])
+            return (a if a is not None else [("star", t[2])]) + (
+                b if b is not None else [("star", t[3])])
+        if t[0] == "mut" and t[2] == "append" and len(t[3]) == 1:
+            a = as_display(t[1])
+            return None if a is None else a + [t[3][0]]
+        if t[0] == "mut" and t[2] == "extend" and len(t[3]) == 1:
+            a, b = as_display(t[1]), as_display(t[3][0])
+            return None if a is None else a + (
+                b if b is not None else [("star", t[3][0])])
+        return None
 
     def parts(t):
         """concat_parts with *x items of displays turned into splices"""
